@@ -194,11 +194,18 @@ def defaultD (n : Nat) : AMat Int n :=
     let df := if i.val ≤ j.val then j.val - i.val else i.val - j.val
     (Int.ofNat (min df (n - df)))
 
-/-- full run of a budgeted routine on `R` (already permuted for latticisers) -/
+/-- `_has_rewirable_pair(i, j)`: two listed connections with four distinct end nodes exist (only then can the
+`while True` edge-pair draw of the loops succeed) -/
+def hasRewirablePair {n} (cells : List (Fin n × Fin n)) : Bool :=
+  cells.any fun p => cells.any fun q => p.1 != q.1 && p.1 != q.2 && p.2 != q.1 && p.2 != q.2
+
+/-- full run of a budgeted routine on `R` (already permuted for latticisers).  The guard
+`if itr > 0 and not _has_rewirable_pair(i, j): raise BCTParamError` precedes the loops and draws nothing. -/
 def runBudget {n} (cfg : Cfg n) (R : AMat Int n) (itr : Nat) (ds : List Nat) :
     Except Err (AMat Int n × Nat × List Nat) := do
   let cells := (edgeCells cfg.src R).toArray
   let k := cells.size
+  if itr > 0 && !hasRewirablePair (edgeCells cfg.src R) then .error .param else
   match cfg.attDen with
   | some den =>
     let maxAtt := roundHalfEven (n * k) den
